@@ -760,6 +760,32 @@ func TestC08(t *testing.T) {
 			}
 		}
 		ctl.Reset()
+		// A client that waits longer for a lock than it waits for any single reply (a cluster client's read timeout is 3 s by
+		// default, here 150 ms): the Lock call still answers at the deadline - with the lock or with "not acquired" - and
+		// what it gave up does not go on acquiring locks that nobody will ever release
+		imp, err := ImpatientClusterClient(c.Live()[0], ms(150))
+		if err != nil {
+			t.Fatal(err)
+		}
+		for b := 0; b < envInt("VERIF_IMPATIENT", 4); b++ {
+			rec := NewRecorder()
+			key := fmt.Sprintf("imp%d-%d", R, b)
+			pa, pz := paths[rng.Intn(len(paths))], paths[rng.Intn(len(paths))]
+			hold := ms([]int{350, 900}[b%2]) // released while the impatient client is still waiting / after its deadline
+			scripts := []Script{
+				{Client: "a", Path: pa, Steps: []Step{{Op: "lock", Key: key, D: 0, Deadline: ms(100)}, {Op: "sleep", D: hold}, {Op: "unlock", Key: key}}},
+				{Client: "b", Path: imp, Steps: []Step{{Op: "lock", Key: key, D: 0, Deadline: ms(600), At: ms(40)}, {Op: "sleep", D: ms(30)}, {Op: "unlock", Key: key}}},
+				// once everybody is done the lock is free
+				{Client: "z", Path: pz, Steps: []Step{{Op: "lock", Key: key, D: 0, Deadline: ms(300), At: ms(2200)}, {Op: "unlock", Key: key}}},
+			}
+			for _, sc := range scripts {
+				sum.Paths[sc.Path.Name()]++
+				sum.Evaluations += len(sc.Steps)
+			}
+			rec.Run("c08", scripts, nil)
+			record(w, rec, &seq, sum, seen, trace.Ev{"cfg": cfg, "impatient": true}, func(h *History) bool { return h.Overlap })
+		}
+		imp.Close()
 		for _, p := range paths {
 			p.Close()
 		}
@@ -1013,6 +1039,34 @@ func TestC15(t *testing.T) {
 					sum.Paths[pp.Name()+"-batch"]++
 					record(w, rec, &seq, sum, seen, trace.Ev{"cfg": shape, "batch": true}, func(h *History) bool { return true })
 				}
+			}
+			// one Delete that names hundreds of keys living on all members (every member owns well over a hundred of them): it
+			// removes every one of them and reports their number, through whichever member it enters
+			nbulk := envInt("VERIF_BULK", 420)
+			bulk := []Path{paths[rng.Intn(len(paths))], paths[sh.N-1]}
+			for _, p := range paths {
+				if strings.HasPrefix(p.Name(), "cc@") || p.Name() == fmt.Sprintf("resp@%d", (si+1)%sh.N) {
+					bulk = append(bulk, p)
+				}
+			}
+			for bi, p := range bulk {
+				rec := NewRecorder()
+				var ks []string
+				var setup, fin []Step
+				for i := 0; i < nbulk; i++ {
+					k := fmt.Sprintf("bulk%d-%d-%d", si, bi, i)
+					if i%7 != 3 { // a few of the named keys do not exist
+						setup = append(setup, Step{Op: "put", Key: k, Val: "v-" + k})
+					}
+					ks = append(ks, k)
+					fin = append(fin, Step{Op: "get", Key: k})
+				}
+				rec.Run("c15", []Script{{Client: "setup", Path: paths[0], Steps: setup}}, nil)
+				rec.Run("c15", []Script{{Client: "bulk", Path: p, Steps: []Step{{Op: "mdel", Keys: ks}}}}, nil)
+				rec.Run("c15", []Script{{Client: "fin", Path: paths[(bi+1)%len(paths)], Steps: fin}}, nil)
+				sum.Evaluations += len(setup) + 1 + len(fin)
+				sum.Paths[p.Name()+"-bulkdel"]++
+				record(w, rec, &seq, sum, seen, trace.Ev{"cfg": shape, "bulk": true}, func(h *History) bool { return true })
 			}
 		}()
 	}
